@@ -184,7 +184,9 @@ pub fn run(seed: u64, n_docs: u64, n_maps: u64, n_par: u64) -> BulkResult {
         for (k, v) in &items {
             supplied.entry(*k).or_default().insert(*v);
         }
-        let old: Vec<(u32, u32)> = (0..rng.below(20)).map(|j| (100 + j as u32, 7)).collect();
+        // entries already present: some under keys the iterator also supplies (those must be
+        // replaced, as by sequential insertion), some under other keys (those must stay)
+        let old: Vec<(u32, u32)> = (0..rng.below(20)).map(|j| (if j % 2 == 0 { 100 + j as u32 } else { rng.below(60) as u32 }, 1_000_000 + j as u32)).collect();
         r.par_runs += 1;
         let res = catch_unwind(AssertUnwindSafe(|| {
             pool.install(|| {
@@ -215,9 +217,12 @@ pub fn run(seed: u64, n_docs: u64, n_maps: u64, n_par: u64) -> BulkResult {
                         fails.push(format!("{} (threads {}): key set differs from sequential insertion", name, threads));
                     }
                     for (k, v) in &got {
-                        let ok = supplied.get(k).map(|s| s.contains(v)).unwrap_or(false) || extra.contains(&(*k, *v));
+                        let ok = match supplied.get(k) {
+                            Some(s) => s.contains(v),
+                            None => extra.iter().rev().find(|x| x.0 == *k).map(|x| x.1 == *v).unwrap_or(false),
+                        };
                         if !ok {
-                            fails.push(format!("{} (threads {}): key {} maps to {}, which was never supplied for it", name, threads, k, v));
+                            fails.push(format!("{} (threads {}): key {} maps to {}, which the iterator never supplied for it (entries present before: {:?})", name, threads, k, v, extra.iter().filter(|x| x.0 == *k).collect::<Vec<_>>()));
                         }
                     }
                     if m.len() != got.len() {
